@@ -1,13 +1,17 @@
 import PsV.Spec.Grid
 import PsV.Model.Glam
+import PsV.Model.GlamIdx
 import PsV.Driver.Eval
 /-!
 Driver for C17 (grid evaluation) and the array kernels of splineutil.c.  Lines (see harness/c17_harness.cpp):
   `B order nknots knotbits* npts xbits*`          → `nrow ncol bits*` of `bsplineBasis` at `F64` (row-major)
   `S ndim ranges* nent (idx* val)* dim nrow ncol b*` → `sliceMultiply` at `Rat`:
-        `fail` | `ndim ranges* | nlisted (idx*)* | value at every index of the result range (row-major)`
+        `fail` | `ndim ranges* | nlisted (idx*)* | value at every index of the result range (row-major) | safe=b`
+        (`b` = `sliceIdxSafe`: fewer than 2^31 columns in the flattened section, the hypothesis of `slicemultiply_int_arith_exact`)
+  `T …` (fields of `S`, large ranges) → `fail` | `ndim ranges* | nlisted (idx*)* | value at every listed index (same order) | safe=b`
   `G ndim (order nknots stride knotbits*)* ncoef coefbits32* (npts xbits*)*` → `gridEval` at `Rat`:
-        `none` | `ndim ranges* | nlisted (idx*)* | per grid point (row-major): get gridSpec specEval magnitude`
+        `none` | `ndim ranges* | nlisted (idx*)* | per grid point (row-major): get gridSpec specEval magnitude | safe=b`
+        (`b` = `gridIdxSafe`, the hypothesis of `grideval_int_arith_exact`)
 -/
 namespace PsV.Driver.C17
 open PsV PsV.Driver PsV.Driver.Eval
@@ -68,7 +72,7 @@ def parseEntries (nd : Nat) : Nat → List String → Option (List (List Nat × 
       pure ((idx, (x : Rat)) :: es, rest)
     | [] => none
 
-def handleS (ws : List String) : String :=
+def handleS (ws : List String) (dense : Bool := true) : String :=
   let r : Option String := do
     match ws with
     | ndw :: rest =>
@@ -91,8 +95,9 @@ def handleS (ws : List String) : String :=
           match sliceMultiply (⟨ranges, es⟩ : NdSparse Rat) b dim with
           | none => pure "fail"
           | some a =>
-            let vals := (allIdx a.ranges).map fun idx => showRat (a.get idx)
-            pure (s!"{a.ranges.length} {joinNat a.ranges} | {showIdxs (listed a)} | " ++ " ".intercalate vals)
+            let vals := (if dense then allIdx a.ranges else listed a).map fun idx => showRat (a.get idx)
+            let safe := if sliceIdxSafe ranges dim ncol then "1" else "0"
+            pure (s!"{a.ranges.length} {joinNat a.ranges} | {showIdxs (listed a)} | " ++ " ".intercalate vals ++ s!" | safe={safe}")
         | _ => none
       | [] => none
     | [] => none
@@ -165,7 +170,8 @@ def handleG (ws : List String) : String :=
               let rows := gridRows dims xs
               let mag := specSum Tabs.coef (absRows rows) Arith.one 0
               s!"{showRat (a.get g)} {showRat (gridSpec dims coef xs)} {showRat (specEval T xs modes)} {showRat mag}"
-          pure (s!"{a.ranges.length} {joinNat a.ranges} | {showIdxs (listed a)} | " ++ " ".intercalate pts)
+          let safe := if gridIdxSafe (dims.map (·.naxes)) 0 (coords.map List.length) then "1" else "0"
+          pure (s!"{a.ranges.length} {joinNat a.ranges} | {showIdxs (listed a)} | " ++ " ".intercalate pts ++ s!" | safe={safe}")
       | [] => none
     | [] => none
   r.getD "bad-input"
@@ -174,6 +180,7 @@ def handle (ws : List String) : String :=
   match ws with
   | "B" :: rest => handleB rest
   | "S" :: rest => handleS rest
+  | "T" :: rest => handleS rest false
   | "G" :: rest => handleG rest
   | _ => "bad-input"
 
